@@ -142,6 +142,17 @@ func generate() []session {
 		}
 	}
 
+	// 2d. a real server behind a forwarder that resets one connection of a tunnelled client
+	for k := 0; k < 8; k++ {
+		for _, pr := range []string{"http", "ws"} {
+			for _, tlsOn := range []bool{false, true} {
+				add("tunnel-reset", nil)
+				o := &out[len(out)-1]
+				o.Proto, o.TLS, o.Seed = pr, tlsOn, int64(k)
+			}
+		}
+	}
+
 	// 3. sampled pairs of mutations
 	n := run.Pick(150, 8000)
 	for i := 0; i < n; i++ {
